@@ -10,7 +10,9 @@ C03 setup lam f [dxp,dyp] [Nx,Ny] [zx,zy]      -> ok lamf=… norm=re:im uvscale
 C03 session [dxp,dyp] [Nx,Ny] [zx,zy] const a | affine a b   -> ok      (one propagator object, f(λ)=a or a+bλ)
 C03 setf const a | affine a b                  -> ok      (prop.focal_length = …)
 C03 at lam                                     -> as setup, for the session's current focal length
-C03 focal [dx,dy] [Mx,My] [zx,zy]              -> ok uvdelta=[…] uvzero=[…] wfac=… class=… M=[…] gain=…
+C03 focal [dx,dy] [Mx,My] [zx,zy]              -> ok uvdelta=[…] uvzero=[…] wfac=… class=… M=[…] gain=… slack=[…] tolclass=… allclose=… snapdelta=[…]|-
+                                                  (slack = |q N − round(q N)| per axis, exact; tolclass / allclose = class under the
+                                                  tolerant test with 1e-10 / np.allclose's defaults; snapdelta = spacing of the FFT's own grid)
 C03 focal cur                                  -> same, for the grid made by the last mkfocal/ffpg
 C03 mkfocal [qx,qy] [ax,ay] [srx,sry]           -> ok delta=[…] dims=[…] zero=[…] slack=[…]   (make_focal_grid)
 C03 ffpg q numairy|- lf                        -> ok delta=[…] dims=[…] zero=[…] slack=[…]   (make_focal_grid_from_pupil_grid)
@@ -70,7 +72,12 @@ def focalInfo (s : Setup) (g : RegGrid) : String :=
   let uv := uvGridTurns s g
   let (cls, Ms) := classify s g
   let gain := if cls == .full then showRat (powerGain s g Ms) else "-"
-  s!"ok uvdelta={showRatList uv.delta} uvzero={showRatList uv.zero} wfac={showRat (uvWeightFactor s g.ndim)} class={cls.show} M={showNatList Ms} gain={gain}"
+  -- near-miss class: exact slack, the class under the code's own float test (1e-10) and under np.allclose's defaults,
+  -- and the spacing of the grid an FFT built for the tolerant padded sizes would really evaluate on
+  let tol := classifyLoose (1 / 10000000000) 0 s g
+  let ac := classifyLoose (1 / 100000000) (1 / 100000) s g
+  let snap := if ac.1 == .other then "-" else showRatList (snappedGrid s g ac.2).delta
+  s!"ok uvdelta={showRatList uv.delta} uvzero={showRatList uv.zero} wfac={showRat (uvWeightFactor s g.ndim)} class={cls.show} M={showNatList Ms} gain={gain} slack={showRatList (commSlack s g)} tolclass={tol.1.show} allclose={ac.1.show} snapdelta={snap}"
 
 def showGrid (g : RegGrid) (slack : List Rat) : String :=
   s!"ok delta={showRatList g.delta} dims={showNatList g.dims} zero={showRatList g.zero} slack={showRatList slack}"
